@@ -81,8 +81,11 @@ def _query_point(subgrids, q):
         u, v = float(min(r + q["ir"], nr - 1)), float(min(c + q["ic"], nc - 1))
     elif kind == "edge":
         u, v = (float(r), c + q["fv"]) if q["ir"] else (r + q["fu"], float(c))
-    elif kind == "interior":
+    elif kind == "interior" or (kind == "hot" and not sg.get("hot")):
         u, v = r + q["fu"], c + q["fv"]
+    elif kind == "hot":
+        # within 0.75 cell of the stationary point of the sub-grid's dome / bowl / saddle field
+        u, v = sg["hot"][0] + (q["fu"] - 0.5) * 1.5, sg["hot"][1] + (q["fv"] - 0.5) * 1.5
     elif kind == "ring":
         side = q["side"] % 4
         rr = 0 if side == 0 else (nr - 2 if side == 1 else r)
@@ -254,11 +257,25 @@ def _dy(draw, lim, den):
 
 
 @st.composite
-def _fields(draw):
+def _fields(draw, nrows=0, ncols=0, hot=None):
+    """Four fields per sub-grid.  With `hot` (a list that receives [u0, v0]) the bi-quadratic field is, half of the time, a pure
+    dome / bowl / saddle a (u - u0)^2 + b (v - v0)^2 + c whose stationary point (u0, v0) lies inside the grid on a half-cell
+    lattice: the cells around an extremum are where the four enclosing nodes say least about the value between them."""
     kinds = draw(st.permutations(["linear", "bilinear", "biquadratic", "bicubic"]))
     out = []
     for kd in kinds:
         c = [0.0] * len(NF.TERMS)
+        if kd == "biquadratic" and hot is not None and nrows >= 3 and ncols >= 3 and draw(st.booleans()):
+            u0 = draw(st.integers(0, 2 * (nrows - 1))) / 2.0
+            v0 = draw(st.integers(0, 2 * (ncols - 1))) / 2.0
+            a = draw(st.sampled_from([1, 2, 4, 8, -1, -2, -4, -8, 16, -16])) / 32.0
+            b = draw(st.sampled_from([1, 2, 4, 8, -1, -2, -4, -8, 16, -16])) / 32.0
+            c[4], c[5] = a, b
+            c[1], c[2] = -2.0 * a * u0, -2.0 * b * v0
+            c[0] = _dy(draw, 64, 8)
+            hot[:] = [u0, v0]
+            out.append(c)
+            continue
         c[0] = _dy(draw, 64, 8)
         c[1], c[2] = _dy(draw, 2, 8), _dy(draw, 2, 8)
         if kd in ("bilinear", "biquadratic", "bicubic"):
@@ -271,6 +288,14 @@ def _fields(draw):
             c[9], c[10] = draw(st.sampled_from([1 / 64.0, -1 / 64.0])), _dy(draw, 1, 64)
         out.append(c)
     return out
+
+
+def _with_fields(draw, sg):
+    hot = []
+    sg["fields"] = draw(_fields(sg["nrows"], sg["ncols"], hot))
+    if hot:
+        sg["hot"] = hot
+    return sg
 
 
 @st.composite
@@ -293,7 +318,8 @@ def grid_files(draw):
     s_lat = round(math.floor(lat0) + frac, 3)
     e_long = round(math.floor(lon0) + frac, 3)
     P = {"name": "PARENT", "parent": "NONE", "s_lat": s_lat, "e_long": e_long, "lat_inc": lat_inc, "long_inc": long_inc,
-         "nrows": nrows, "ncols": ncols, "fields": draw(_fields())}
+         "nrows": nrows, "ncols": ncols}
+    _with_fields(draw, P)
     subs = [P]
     n_extra = draw(st.integers(0, 3))
 
@@ -310,9 +336,9 @@ def grid_files(draw):
         dr = draw(st.integers(1, min(rhi - r0, max(1, 58 // k))))
         c0 = draw(st.integers(0, of["ncols"] - 2))
         dc = draw(st.integers(1, min(of["ncols"] - 1 - c0, max(1, 58 // k))))
-        return {"name": name, "parent": of["name"], "s_lat": round(of["s_lat"] + r0 * of["lat_inc"], 3),
-                "e_long": round(of["e_long"] + c0 * of["long_inc"], 3), "lat_inc": li, "long_inc": lo,
-                "nrows": dr * k + 1, "ncols": dc * k + 1, "fields": draw(_fields())}
+        return _with_fields(draw, {"name": name, "parent": of["name"], "s_lat": round(of["s_lat"] + r0 * of["lat_inc"], 3),
+                                   "e_long": round(of["e_long"] + c0 * of["long_inc"], 3), "lat_inc": li, "long_inc": lo,
+                                   "nrows": dr * k + 1, "ncols": dc * k + 1})
 
     mid = (nrows - 1) // 2
     if n_extra >= 1:
@@ -331,11 +357,12 @@ def grid_files(draw):
         else:       # a second top-level grid, disjoint from the first (north of it)
             q_lat = round(s_lat + span_lat + draw(st.sampled_from([0.0, 3600.0, 30.0])), 3)
             if q_lat + 10 * lat_inc < 89 * 3600:
-                subs.append({"name": "OTHER", "parent": "NONE", "s_lat": q_lat, "e_long": e_long, "lat_inc": lat_inc,
-                             "long_inc": draw(st.sampled_from(pool)),
-                             # (rows in whole multiples of m1 so that the northern limit has three decimals, as for the parent)
-                             "nrows": (draw(st.integers(3, 10)) if m1 == 1 else m1 * draw(st.integers(1, max(1, 10 // m1))) + 1),
-                             "ncols": draw(st.integers(3, 10)), "fields": draw(_fields())})
+                subs.append(_with_fields(draw, {
+                    "name": "OTHER", "parent": "NONE", "s_lat": q_lat, "e_long": e_long, "lat_inc": lat_inc,
+                    "long_inc": draw(st.sampled_from(pool)),
+                    # (rows in whole multiples of m1 so that the northern limit has three decimals, as for the parent)
+                    "nrows": (draw(st.integers(3, 10)) if m1 == 1 else m1 * draw(st.integers(1, max(1, 10 // m1))) + 1),
+                    "ncols": draw(st.integers(3, 10))}))
     if len(subs) > 1 and draw(st.integers(0, 3)) == 0:
         subs = list(draw(st.permutations(subs)))
     nq = draw(st.integers(8, 30))
@@ -343,7 +370,8 @@ def grid_files(draw):
     for _ in range(nq):
         queries.append({
             "sg": draw(st.integers(0, 7)),
-            "kind": draw(st.sampled_from(["node", "edge", "interior", "interior", "ring", "ring", "just_inside", "just_outside", "far", "se_edge"])),
+            "kind": draw(st.sampled_from(["node", "edge", "interior", "interior", "ring", "ring", "just_inside", "just_outside", "far", "se_edge",
+                                           "hot", "hot"])),
             "fr": draw(_unit), "fc": draw(_unit), "fu": draw(_unit), "fv": draw(_unit), "ir": draw(st.integers(0, 1)),
             "ic": draw(st.integers(0, 1)), "side": draw(st.integers(0, 3)), "delta": draw(S.log_uniform(2e-6, 1.0)),
             "method": draw(st.sampled_from(["bilinear", "bicubic", "bicubic"])), "forward": draw(st.booleans())})
@@ -368,7 +396,11 @@ def _classes(case):
     out.append("south" if subs[0]["s_lat"] < 0 else "north")
     if subs[0]["name"] != "PARENT" and len(subs) > 1:
         out.append("shuffled-order")
-    for k in sorted({q["kind"] + "/" + q["method"] for q in case["queries"]}):
+    def qk(q):
+        if q["kind"] == "hot" and not subs[q["sg"] % len(subs)].get("hot"):
+            return "interior"
+        return "stationary-point" if q["kind"] == "hot" else q["kind"]
+    for k in sorted({qk(q) + "/" + q["method"] for q in case["queries"]}):
         out.append("q:" + k)
     return out
 
